@@ -27,4 +27,4 @@ def run(ctx):
         _world.validate_runs(ctx, runs, f"random add/remove/lookup histories with colliding ids and injected errors, {label}")
     if not q:
         from .. import suite
-        suite.run(ctx, ["space"])
+        suite.run(ctx, ["space", "pop"])
